@@ -162,8 +162,17 @@ func strData(s string) unsafe.Pointer { return unsafe.Pointer(unsafe.StringData(
 
 // sameBits: is b the very value a (bit-identical; floats by bits, strings and slices by data pointer,
 // length (and capacity), pointers and funcs by identity, interfaces by dynamic type and value)?
-func sameBits(tc int, a, b interface{}) bool {
+func sameBits(tc int, a, b interface{}) (same bool) {
+	// a received value may be garbage (that is what is being tested): never let a fault escape
+	defer func() {
+		if recover() != nil {
+			same = false
+		}
+	}()
 	if isIface(tc) {
+		if *(*[2]uintptr)(unsafe.Pointer(&a)) == *(*[2]uintptr)(unsafe.Pointer(&b)) {
+			return true // same dynamic type word, same data word
+		}
 		if a == nil || b == nil {
 			return a == nil && b == nil
 		}
@@ -194,7 +203,12 @@ func sameBits(tc int, a, b interface{}) bool {
 }
 
 // sameFuncBehaviour: same code pointer and same answer (used for func results delivered by Return).
-func sameFuncBehaviour(a, b interface{}) bool {
+func sameFuncBehaviour(a, b interface{}) (same bool) {
+	defer func() {
+		if recover() != nil {
+			same = false
+		}
+	}()
 	fa, ok1 := a.(func(int) int)
 	fb, ok2 := b.(func(int) int)
 	if !ok1 || !ok2 {
@@ -207,7 +221,12 @@ func sameFuncBehaviour(a, b interface{}) bool {
 }
 
 // sameDeep compares two results of the original function (content equality).
-func sameDeep(tc int, a, b interface{}) bool {
+func sameDeep(tc int, a, b interface{}) (same bool) {
+	defer func() {
+		if recover() != nil {
+			same = false
+		}
+	}()
 	if isIface(tc) {
 		if a == nil || b == nil {
 			return a == nil && b == nil
@@ -235,7 +254,12 @@ func sameDeep(tc int, a, b interface{}) bool {
 	return reflect.DeepEqual(a, b)
 }
 
-func render(tc int, a interface{}) string {
+func render(tc int, a interface{}) (out string) {
+	defer func() {
+		if recover() != nil {
+			out = "<value cannot be read without faulting>"
+		}
+	}()
 	if a == nil {
 		return "nil"
 	}
